@@ -266,7 +266,7 @@ func (d *restDriver) jobOCRA(c *ctx, tag string, probe bool, validate bool) job 
 		q.Suite = RSuite{P: true, Hash: S([]string{"SHA1", "SHA256", "SHA512"}[cf.Hash]), Cfg: cf}
 		sa = cfgSuiteArg(cf)
 	} else {
-		name := d.suites[c.rng.Intn(len(d.suites))]
+		name := c.pickName(d.suites)
 		q.RawSuite = rfStr(name)
 		x, err := rawSuiteArg(name)
 		if err != nil {
